@@ -158,7 +158,31 @@ def eval : Op
         ofFlts ((List.range c.T).map sorted)]
   | _ => none
 
+/-- `C13.construct_seq filt times probe` : two constructor calls on the SAME filter object →
+    caller's filter on `probe` before / after, first and second posterior's own filter on the probe at
+    the sorted times -/
+def constructSeq : Op
+  | [fv, tv, pv] => do
+    let f0 ← parseAnyFilt fv
+    let times ← tv.flts?
+    let (n, y) ← C12.parseSim pv
+    let lt : Float → Float → Bool := fun a b => a < b
+    let h0 : Heap Float := [f0]
+    let ll (g : Option (AnyFilt Float)) (z : Nat → Nat → Nat → Float) : Val := match g with
+      | some g => C12.llVal (g.ll n z)
+      | none => errVal "indexError"
+    match constructHeap lt (0.0 / 0.0) h0 0 times with
+    | .error e => some [errVal (C12.errName e)]
+    | .ok (h1, q1, _) =>
+      match constructHeap lt (0.0 / 0.0) h1 0 times with
+      | .error e => some [errVal (C12.errName e)]
+      | .ok (h2, q2, _) =>
+        let ord := argsortBy lt times (0.0 / 0.0)
+        let ys : Nat → Nat → Nat → Float := fun s r j => y s r (ord.getD j 0)
+        some [ll h0[0]? y, ll h2[0]? y, ll h1[q1]? ys, ll h2[q2]? ys]
+  | _ => none
+
 def ops : List (String × Op) :=
   [("C13.layout", layout), ("C13.reshape", reshape), ("C13.gather", gather), ("C13.names", names),
-   ("C13.eval", eval)]
+   ("C13.eval", eval), ("C13.construct_seq", constructSeq)]
 end ChiDriver.C13
